@@ -306,13 +306,18 @@ pub fn run() -> i32 {
                 let sm_mix = dryoc::sign::SignedMessage::<SB<64>, Vec<u8>>::from_parts(sm.clone().into_parts().0, b"message two".to_vec());
                 let sm_mix2 = dryoc::sign::SignedMessage::<SB<64>, Vec<u8>>::from_parts(sm_o.clone().into_parts().0, b"message one".to_vec());
                 v.push(("SignedMessage/clone+clone_from".into(), clone_ok(&sm, &sm_o) && clone_ok(&sm, &sm_mix)));
-                v.push(("SignedMessage/eq".into(), eq_sound(&sm, &sm_o) && eq_sound(&sm, &sm_mix) && eq_sound(&sm, &sm_mix2) && eq_sound(&sm, &sm.clone())));
+                let sm_prefix = dryoc::sign::SignedMessage::<SB<64>, Vec<u8>>::from_parts(sm.clone().into_parts().0, b"message on".to_vec());
+                let sm_empty = dryoc::sign::SignedMessage::<SB<64>, Vec<u8>>::from_parts(sm.clone().into_parts().0, vec![]);
+                let sm_longer = dryoc::sign::SignedMessage::<SB<64>, Vec<u8>>::from_parts(sm.clone().into_parts().0, b"message one!".to_vec());
+                v.push(("SignedMessage/eq".into(), eq_sound(&sm, &sm_o) && eq_sound(&sm, &sm_mix) && eq_sound(&sm, &sm_mix2) && eq_sound(&sm, &sm.clone()) && eq_sound(&sm, &sm_prefix) && eq_sound(&sm_prefix, &sm) && eq_sound(&sm, &sm_empty) && eq_sound(&sm_empty, &sm) && eq_sound(&sm, &sm_longer)));
                 let ks = Keys::make(seed, 3, 2);
                 let b1: DryocSecretBox<SB<16>, Vec<u8>> = DryocSecretBox::encrypt(&b"payload one".to_vec(), &ks.n, &ks.k);
                 let b2: DryocSecretBox<SB<16>, Vec<u8>> = DryocSecretBox::encrypt(&b"payload two".to_vec(), &ks.n, &ks.k);
                 let b_mix = DryocSecretBox::<SB<16>, Vec<u8>>::from_parts(b1.clone().into_parts().0, b2.clone().into_parts().1);
                 v.push(("DryocSecretBox/clone+clone_from".into(), clone_ok(&b1, &b2) && clone_ok(&b1, &b_mix)));
-                v.push(("DryocSecretBox/eq".into(), eq_sound(&b1, &b2) && eq_sound(&b1, &b_mix) && eq_sound(&b1, &b1.clone())));
+                let b_prefix = DryocSecretBox::<SB<16>, Vec<u8>>::from_parts(b1.clone().into_parts().0, b1.clone().into_parts().1[..5].to_vec());
+                let b_empty = DryocSecretBox::<SB<16>, Vec<u8>>::from_parts(b1.clone().into_parts().0, vec![]);
+                v.push(("DryocSecretBox/eq".into(), eq_sound(&b1, &b2) && eq_sound(&b1, &b_mix) && eq_sound(&b1, &b1.clone()) && eq_sound(&b1, &b_prefix) && eq_sound(&b_prefix, &b1) && eq_sound(&b1, &b_empty) && eq_sound(&b_empty, &b1)));
                 let x1: DryocBox<SB<32>, SB<16>, Vec<u8>> = DryocBox::encrypt(&b"payload one".to_vec(), &SB::<24>::from(&ks.n), &SB::<32>::from(&ks.pk_b), &SB::<32>::from(&ks.sk_a)).unwrap();
                 let x2: DryocBox<SB<32>, SB<16>, Vec<u8>> = DryocBox::encrypt(&b"payload two".to_vec(), &SB::<24>::from(&ks.n), &SB::<32>::from(&ks.pk_b), &SB::<32>::from(&ks.sk_a)).unwrap();
                 v.push(("DryocBox/clone+clone_from".into(), clone_ok(&x1, &x2)));
